@@ -52,6 +52,11 @@ func (fc *FnCtx) resolveLocal(name string, b *ssa.BasicBlock, before ssa.Instruc
 				}
 			case *ssa.DebugRef:
 				if id, ok := x.Expr.(*ast.Ident); ok && id.Name == name {
+					if po, isParam := fc.paramObj[name]; isParam && po != nil && x.Object() != nil && x.Object() != po {
+						// another variable that merely has the name the contract gives to a
+						// parameter (e.g. a captured variable): not what the contract means
+						continue
+					}
 					return x.X, x.IsAddr, true
 				}
 			}
@@ -64,6 +69,15 @@ func (fc *FnCtx) resolveLocal(name string, b *ssa.BasicBlock, before ssa.Instruc
 func (fc *FnCtx) localVar(name string, b *ssa.BasicBlock, before ssa.Instruction, st *State) (Val, bool) {
 	v, isAddr, ok := fc.resolveLocal(name, b, before)
 	if !ok {
+		// a result name of the contract denotes, inside the function, the value that the
+		// function's only return statement returns - if that value already exists at this
+		// point (e.g. the object allocated at entry and returned by address). This lets loop
+		// invariants speak of "the result under construction" without naming a local.
+		if rv, ok := fc.returnedValue(name, b); ok {
+			if val, have := fc.vals[rv]; have {
+				return val, true
+			}
+		}
 		return Val{}, false
 	}
 	val, have := fc.vals[v]
@@ -143,6 +157,10 @@ func (fc *FnCtx) loopHeader(li *loopInfo, st *State) *State {
 	}
 	fc.refBase = wm
 	li.wm = wm
+	if fc.wmDeclared == nil {
+		fc.wmDeclared = map[string]bool{}
+	}
+	fc.wmDeclared[wm.Op] = true
 	// 2. havoc
 	st2 := st.clone()
 	for _, k := range smt.SortedKeys(li.written) {
@@ -159,8 +177,8 @@ func (fc *FnCtx) loopHeader(li *loopInfo, st *State) *State {
 		_, vs, _ := smt.ArrParts(hs)
 		for _, rn := range smt.SortedKeys(li.writtenRefs[k]) {
 			ref := li.writtenRefs[k][rn]
-			if ref.Op == "+" && strings.HasPrefix(ref.Args[0].Op, fmt.Sprintf("wm_%d", li.ord)) {
-				continue // allocated inside this loop: does not exist at the header
+			if !fc.existsAtHeader(li, ref) {
+				continue // allocated inside this loop (or a loop nested in it): does not exist at the header
 			}
 			nv := fc.S.Fresh("hvl_"+k, vs)
 			switch {
@@ -252,7 +270,9 @@ func (fc *FnCtx) loopFrame(li *loopInfo, ls *spec.LoopSpec, pre, now *State, ass
 		}
 		// fresh objects written at literal references are havocked one by one at the header
 		for _, rn := range smt.SortedKeys(li.writtenRefs[k]) {
-			notAllowed = append(notAllowed, smt.Neq(r, li.writtenRefs[k][rn]))
+			if fc.existsAtHeader(li, li.writtenRefs[k][rn]) {
+				notAllowed = append(notAllowed, smt.Neq(r, li.writtenRefs[k][rn]))
+			}
 		}
 		a0 := fc.S.Name("fr0", fc.getHeap(li.preLoop, k, vs))
 		a1 := fc.S.Name("fr1", fc.getHeap(now, k, vs))
@@ -600,4 +620,57 @@ func (fc *FnCtx) rangeIndexFacts(li *loopInfo, g *smt.Term) {
 		fc.assume(g, smt.And(smt.Le(smt.IntLit(-1), idx), smt.Lt(idx, smt.App("ite", smt.Int, smt.Lt(lt, smt.IntLit(0)), smt.IntLit(0), lt))), "range index within bounds (from the SSA shape of the range loop)")
 		fc.Used["range loop index: -1 <= index < len, derived from the compiler-generated loop shape (checked syntactically)"] = true
 	}
+}
+
+// returnedValue: the SSA value returned as the contract's result `name` by the
+// function's single return statement, provided its definition dominates block b.
+func (fc *FnCtx) returnedValue(name string, b *ssa.BasicBlock) (ssa.Value, bool) {
+	if fc.C == nil {
+		return nil, false
+	}
+	idx := -1
+	for i, r := range fc.C.Results {
+		if r == name {
+			idx = i
+		}
+	}
+	if idx < 0 {
+		return nil, false
+	}
+	var ret *ssa.Return
+	for _, blk := range fc.Fn.Blocks {
+		if r, ok := blk.Instrs[len(blk.Instrs)-1].(*ssa.Return); ok {
+			if ret != nil {
+				return nil, false
+			}
+			ret = r
+		}
+	}
+	if ret == nil || idx >= len(ret.Results) {
+		return nil, false
+	}
+	v := ret.Results[idx]
+	in, ok := v.(ssa.Instruction)
+	if !ok {
+		return nil, false
+	}
+	if in.Block() != b && !in.Block().Dominates(b) {
+		return nil, false
+	}
+	return v, true
+}
+
+// existsAtHeader: a reference written inside loop li (from the dry run) denotes
+// an object that already exists when the loop is entered: a literal, or one
+// relative to the watermark of an *enclosing* loop that has been entered. A
+// reference relative to this loop's watermark, or to that of a loop nested in
+// it, is allocated later (and its watermark is not even declared yet).
+func (fc *FnCtx) existsAtHeader(li *loopInfo, ref *smt.Term) bool {
+	if ref.Op == "+" && len(ref.Args) == 2 && strings.HasPrefix(ref.Args[0].Op, "wm_") {
+		if li.wm != nil && ref.Args[0].Op == li.wm.Op {
+			return false
+		}
+		return fc.wmDeclared[ref.Args[0].Op]
+	}
+	return true
 }
